@@ -19,6 +19,9 @@ def check(ctx: Ctx) -> None:
     from .elemtrack import r_spawner_kept
     r_spawner_kept(ctx, "R04.6")
     S.r_wiring(ctx, "R04.3w", {"GROUP", "FUNC", "ARGS", "KWARGS", "NUM"}, 10, "group/func/args/kwargs/num roles")
+    # "however long it has to wait for room": a waiting request gets its room only if every task that ends gives its slot back,
+    # on every way it can end (a slot lost in a raising / cancelled end callback starves the spawner of an accepted request)
+    S.r_who_release(ctx, "R04.9")
     # no time-outs anywhere on the spawning path ("however long it has to wait")
     rep.rule("R04.4", "WHO(wait_for / timeout in the pool classes) is empty; positive control: gather calls of the same module are resolved")
     bad = ctx.all_nodes(lambda n: n.op == "call" and n.callee is not None and n.callee.kind == "ext" and
